@@ -538,6 +538,21 @@ Fixpoint compat_ft (ft : ftype) (t : ty) {struct ft} : bool :=
   end.
 Definition compatible (c : cls) (s : schema) : bool := compat_ft s (ty_of_cls c).
 
+(* diagnosis when [compatible] fails: Optional attributes whose field rejects null *)
+Definition missing_allow_none (c : cls) (s : schema) : list text :=
+  match s with
+  | FNested _ _ fs =>
+      flat_map (fun f : sfield =>
+                  match find_cf (sf_attr f) (cfields c) with
+                  | Some cf => match cf_ty cf with
+                               | TOpt _ => if allow_none (sf_opts f) then [] else [sf_attr f]
+                               | _ => []
+                               end
+                  | None => []
+                  end) fs
+  | _ => []
+  end.
+
 (* ---------------------------------------------------------------- Lark trees: TreeSchema / _TokenOrTreeSchema / TokenSchema *)
 Inductive ltree := LTok (ty v : text) | LTree (data : text) (children : list ltree).
 (* what TreeSchema().load can return: besides trees and tokens the raw data dictionary of _TokenOrTreeSchema
